@@ -117,6 +117,11 @@ def decide(pid, tier, seed, reports, known, wall, write_replay, verbose=False):
                     f0 = st['failures'][0]
                     violation(f"B:enum:{r['key']}", f"{fn}: run-time contract fails on {f0.get('inputs')}: {f0.get('failed')}",
                               dict(property=pid, kind='B-enum', contract_key=r['key'], failure=f0))
+                elif st.get('failures') and (r['status'] != 'ok' or r.get('unsupported')) and not any(o['verdict'] != 'proved' for o in r.get('obligations', [])):
+                    # the source is outside what the contract can be checked against (undecided), but the concrete contract fails on the real function: a violation all the same
+                    f0 = st['failures'][0]
+                    violation(f"B:enum:{r['key']}", f"{fn}: contract undecided on this source; its witness / enumerated inputs fail on the real function: {f0.get('inputs')}: {f0.get('failed')}",
+                              dict(property=pid, kind='B-enum', contract_key=r['key'], failure=f0))
         elif kind in ('G', 'B'):
             if r.get('status') == 'undecided':
                 undecided.append(dict(fn=r['name'], why=r.get('detail', '')))
